@@ -38,7 +38,7 @@ META = {
                 'D2 descriptor negotiation concludes; the transport\'s descriptor support is not changed by any line before OK',
                 'D3 mechanisms in order, at most once; exhaustion closes',
                 'D4 no silent transition (incl. keyring failures are answered)',
-                'D5 unknown line closes (the command word is taken exactly: no lossy decoding, no case or whitespace normalisation), and closing '
+                'D5 the text of a failure is a string; unknown line closes (the command word is taken exactly: no lossy decoding, no case or whitespace normalisation), and closing '
                 'is final (no later line of the same read is processed)',
                 'D6 attribute discipline',
                 'D7 line framing independent of read splitting (shared with '
@@ -56,6 +56,8 @@ def f(m, s, name):
 def run(ctx):
     prog = ctx.prog
     m = Machine(prog, K)
+    from .common import failure_text_is_text
+    failure_text_is_text(ctx, 'C07.D5', 'the client never closes the connection although every mechanism was refused')
     lossy = m.lossy_dispatch_key()
     ctx.ob('C07.D5', m.dispatch.qualname, 'command-word-taken-exactly',
            not lossy, 'the handler is chosen from the command word after it '
